@@ -194,13 +194,18 @@ class ProcessWorker(Worker):
         #self._ctrl_comms.parent_end.close()
 
         try:
-            #assert self.is_child
-            self._comms.child_end.put((self._pid, self._tid, self._ident))
-            self._init_child()
-            result = self.do_work()
-            self._comms.child_end.put(((True, result), self._user_state))
+            try:
+                #assert self.is_child
+                self._comms.child_end.put((self._pid, self._tid, self._ident))
+                self._init_child()
+                result = self.do_work()
+                self._comms.child_end.put(((True, result), self._user_state))
+            except Exception as e:
+                logger.exception('Exception occurred while running the main function')
+                self._comms.child_end.put(((False, e), self._user_state))
         except Exception as e:
-            logger.exception('Exception occurred while running the main function')
+            # a request to terminate which arrives while the failure above is being reported
+            # is what ends the child: report it instead of losing both
             self._comms.child_end.put(((False, e), self._user_state))
         finally:
             self._cleanup()
